@@ -20,7 +20,24 @@ def ext_fromarray(ex, st, args, kwargs, node):
     # the keyword operands that decide HOW the source is read (a custom getitem, the lock, asarray / fancy, the meta) and
     # how the node is inlined: recorded as passed, so that a rewrite's contract can demand they are carried over
     o.fields["__passed__"] = {k: v for k, v in kwargs.items() if k in READ_OPERANDS}
+    # the token handed to the constructor (None: the node falls back to the bare (type, exact name) token)
+    o.fields["__determ__"] = kwargs.get("_determ_token")
     return o
+
+
+def ext_derived_token(ex, st, args, kwargs, node):
+    """self._derived_token(name): a token that chains the source node's own token (the real method is three lines; what the
+    rewrites have to do is USE it, which the clause derived-node-carries-the-source-token checks)"""
+    v = ex.fresh_value("obj:DerivedToken", "derived_token")
+    v.fields["of"] = args[0]
+    return v
+
+
+def carries_source_token(new_io, old):
+    """the rebuilt node was given a token made by the OLD node's _derived_token (and not left to the (type, name) default,
+    which does not tell two sources of the same user-supplied name apart)"""
+    d = new_io.fields.get("__determ__")
+    return isinstance(d, ObjV) and d.cls == "DerivedToken" and d.fields.get("of") is old
 
 
 READ_OPERANDS = ("lock", "getitem", "inline_array", "meta", "asarray", "fancy")
@@ -125,19 +142,22 @@ def make(spec, index_ty, region_ty):
         fields = {
             "FromArray": {"array": "obj:Source", "chunks": "tup:seq", "_region": region_ty, "_effective_shape": "tup:int",
                           "_name": "str", "inline_array": "bool", "lock": "abs:Any", "getitem": "abs:Any", "meta": "abs:Any",
-                          "asarray": "abs:Any", "fancy": "abs:Any"},
+                          "asarray": "abs:Any", "fancy": "abs:Any", "_name_is_exact": "bool"},
             "Source": {"ndim": "const", "shape": "tup:int", "dtype": "obj:DType"},
             "DType": {"itemsize": "int"},
             "SliceExpr": {"index": index_ty},
             "SliceSlicesIntegers": {},
+            "DerivedToken": {},
         }
         consts = {"self.array.ndim": 1}
         externals = {"FromArray": ext_fromarray, "SliceSlicesIntegers": ext_ssi, "tokenize": ext_tokenize,
-                     "Source.__getitem__": ext_source_getitem, "Source.copy": ext_source_copy}
+                     "Source.__getitem__": ext_source_getitem, "Source.copy": ext_source_copy,
+                     "FromArray._derived_token": ext_derived_token}
         havoc = {
             "type(source) in (np.ndarray, np.ma.core.MaskedArray)": "bool",
             "int(np.prod(region_shape, dtype=object)) * source.dtype.itemsize": "int",
             "'-'.join((f'i{idx}' if isinstance(idx, Integral) else 's' for idx in extract_index))": "str",
+            "f'{extract_token}-{tokenize(new_io.deterministic_token)}'": "str",
         }
 
         def requires(self, slice_expr):
@@ -166,6 +186,7 @@ def make(spec, index_ty, region_ty):
             eff = S.item(self.get("_effective_shape"), 0)
             ch = S.item(io.fields["chunks"], 0)
             out.update(carried_over(io, self))
+            out["derived-node-carries-the-source-token"] = carries_source_token(io, self)
             out["chunks-add-up-to-selection"] = S.ssum(ch) == S.nsel(idx, eff)
             out["chunks-nonneg"] = S.chunking(ch)
             out["chunks-nonempty"] = S.slen(ch) >= 1
@@ -204,8 +225,8 @@ class with_chunks:
     result = "obj:FromArray"
     fields = {"FromArray": {"array": "obj:Source", "chunks": "tup:seq", "_region": "tup:slice", "_name": "str", "inline_array": "bool",
                             "lock": "abs:Any", "getitem": "abs:Any", "meta": "abs:Any", "asarray": "abs:Any", "fancy": "abs:Any"},
-              "Source": {"shape": "tup:int"}}
-    externals = {"FromArray": ext_fromarray, "tokenize": ext_tokenize}
+              "Source": {"shape": "tup:int"}, "DerivedToken": {}}
+    externals = {"FromArray": ext_fromarray, "tokenize": ext_tokenize, "FromArray._derived_token": ext_derived_token}
 
     def requires(self, chunks):
         return True
@@ -216,6 +237,7 @@ class with_chunks:
                "same-region": result.fields["_region"] is self.get("_region") or S.slice_eq(
                    result.fields["_region"].items[0], self.get("_region").items[0])}
         out.update(carried_over(result, self))
+        out["derived-node-carries-the-source-token"] = carries_source_token(result, self)
         return out
 
 
